@@ -284,8 +284,3 @@ Proof.
            per1_target per1_target (nat_R_refl per1_target) d d (nat_R_refl d)).
 Qed.
 
-Print Assumptions obj_reverse_transfer.
-Print Assumptions obj_rotate_transfer.
-Print Assumptions obj_split_transfer.
-Print Assumptions obj_lower_periodic_transfer.
-Print Assumptions basis_continuity_transfer.
